@@ -115,6 +115,17 @@ def gen_scenario(r):
         ops += [(RES, c) for c in cut(r, resp, rs)]
         if client_payload:
             ops += [(REQ, c) for c in cut(r, client_payload, ps)]
+    sc['coalesced'] = 0
+    last_res = max(i for i, o in enumerate(ops) if o[0] == RES)
+    all_client_bytes_offered = sum(len(o[1]) for o in ops[:last_res] if o[0] == REQ) == len(head) + len(client_payload)
+    if server_payload and kind == 'connect' and all_client_bytes_offered and r.chance(0.5):
+        # the first bytes from behind the proxy arrive in the same segment as the end of its answer (only when everything
+        # they answer has been offered already: a response never precedes its request)
+        li = max(i for i, o in enumerate(ops) if o[0] == RES)
+        k = r.randint(1, len(server_payload))
+        ops[li] = (RES, ops[li][1] + server_payload[:k])
+        server_payload = server_payload[k:]
+        sc['coalesced'] = 1
     if server_payload:
         ops += [(RES, c) for c in cut(r, server_payload, r.pick(['whole', 'random', 'bytes']))]
     if payload_kind == 'tls' and r.chance(0.5):
